@@ -10,7 +10,8 @@ def snap(x, ident=True, depth=0):
     if isinstance(x, Namespace):
         return ("Namespace", i, tuple((k, snap(v, ident, depth + 1)) for k, v in vars(x).items()))
     if isinstance(x, dict):
-        return ("dict", i, tuple((repr(k), snap(v, ident, depth + 1)) for k, v in x.items()))
+        # dict subclasses keep their own name (recreate_branches treats OrderedDict differently from dict)
+        return ("dict" if type(x) is dict else type(x).__name__, i, tuple((repr(k), snap(v, ident, depth + 1)) for k, v in x.items()))
     if isinstance(x, (list, tuple)):
         return (type(x).__name__, i, tuple(snap(v, ident, depth + 1) for v in x))
     if isinstance(x, (set, frozenset)):
@@ -36,7 +37,7 @@ def diff(a, b, path=""):
     k = a[0]
     if len(a) == 2:
         return (path or "top", "value")
-    if k in ("Namespace", "dict") or k.startswith("obj:"):
+    if k in ("Namespace", "dict", "OrderedDict", "defaultdict") or k.startswith("obj:"):
         ka, kb = [x[0] for x in a[2]], [x[0] for x in b[2]]
         if ka != kb:
             if set(ka) - set(kb):
